@@ -82,6 +82,18 @@ def get_classes():
         def m_e(self, path, **kw):
             return self.get_conn().put(path, **kw)
 
+        # the same two methods written with a shared helper between the wrapper and get_conn()
+        def _conn(self):
+            return self.get_conn()
+
+        @MH.method_http(None, "compA")
+        def h_a(self, path, **kw):
+            return self._conn().post(path, **kw)
+
+        @MH.method_http(None)
+        def h_plain(self, path, **kw):
+            return self._conn().get(path, **kw)
+
     class CallerB(CallerA):
         _HTTP_PREFIX_MAP = {"compA": "b/", "compX": "/x"}
 
@@ -100,6 +112,8 @@ CALLER_METHODS = [
     ("m_plain", "GET", [None, None]),
     ("m_e", "PUT", ["", "/x"]),       # CallerA: compE -> '' ; CallerB: compX -> '/x' (compE absent)
     ("m_x", "DELETE", [None, "/x"]),
+    ("h_a", "POST", ["/a/pre", "b/"]),
+    ("h_plain", "GET", [None, None]),
 ]
 
 
@@ -591,8 +605,8 @@ def st_ops():
         st.tuples(st.just("req"), idx, st_reqargs()),
         st.tuples(st.just("req"), idx, st_reqargs()),
         st.tuples(st.just("req"), idx, st_reqargs()),
-        st.tuples(st.just("call"), idx, st.integers(0, 3), st_reqargs()),
-        st.tuples(st.just("call"), idx, st.integers(0, 3), st_reqargs()),
+        st.tuples(st.just("call"), idx, st.integers(0, 5), st_reqargs()),
+        st.tuples(st.just("call"), idx, st.integers(0, 5), st_reqargs()),
     )
 
     def tolist(x):
